@@ -619,6 +619,7 @@ def run(chk, repo, tier):
             continue
         break
     run_k9(chk, repo)
+    run_k10(chk, repo)
 
 
 def _record_tests(fn):
@@ -724,3 +725,38 @@ def run_k9(chk, repo):
                       'or `final` overwrite each other\'s description', line=c.methods['_annotations_path'].node.lineno,
                       witness='a top context and two subcontexts each storing input/final: retrieve_model_entry returns another '
                               'model\'s description')
+
+
+def run_k10(chk, repo):
+    """the marker of an unfinished store is looked for where it is created"""
+    from sa import reach
+    from sa.cfg import CFG
+    K10 = chk.rule('K10', 'the PENDING marker has the same path expression in transaction() (creates / removes it) and '
+                          'snapshot() (refuses while it exists)', floor=2)
+    m = repo.module('pharmpy.workflows.model_database.local_directory')
+    db = m.classes.get('LocalModelDirectoryDatabase')
+    if db is None:
+        raise AnalysisError('LocalModelDirectoryDatabase not found')
+    texts = {}
+    for name in ('snapshot', 'transaction'):
+        f = db.methods.get(name)
+        if f is None:
+            raise AnalysisError(f'LocalModelDirectoryDatabase.{name} not found')
+        cfg = CFG(f.node)
+        found = []
+        for b in ast.walk(f.node):
+            if isinstance(b, ast.BinOp) and isinstance(b.op, ast.Div) and unparse(b.right).endswith('FILE_PENDING'):
+                nid = reach.node_containing(cfg, b)
+                e = reach.expand_expr(cfg, nid, b.left) if nid is not None else b.left
+                found.append(unparse(e))
+        if not found:
+            raise AnalysisError(f'K10: PENDING marker path not found in {name}()')
+        texts[name] = sorted(set(found))
+        chk.instance(K10, f'{name}(): PENDING marker under {texts[name]}')
+    if texts['snapshot'] != texts['transaction']:
+        chk.violation(K10, m.rel, 'LocalModelDirectoryDatabase.snapshot / transaction',
+                      f'{texts["snapshot"]} vs {texts["transaction"]}',
+                      'readers look for the marker of an unfinished store in another place than writers put it: a half written '
+                      'entry is returned as complete', line=db.methods['snapshot'].node.lineno,
+                      witness='a store interrupted after the model file and before results.json, then retrieve_model_entry of '
+                              'that key: the entry comes back without results instead of raising PendingTransactionError')
